@@ -13,17 +13,17 @@ open JS
     pointer addresses nothing — never some other value. -/
 theorem resolve_eq_spec (keep : Char → Bool) (doc : Json) (toks : List Str) :
     resolveFragment doc (Spec.fragmentOf keep toks) = Spec.ptrEval doc toks := by
-  sorry
+  exact PointerProofs.resolve_eq_spec keep doc toks
 
 /-- positive half in terms of paths: every reachable location is found -/
 theorem positive (keep : Char → Bool) (doc : Json) (path : List PathElem) (v : Json)
     (h : Spec.ptrGet doc path = some v) :
     resolveFragment doc (Spec.fragmentOf keep (path.map Spec.tokenOf)) = some v := by
-  sorry
+  rw [resolve_eq_spec]; exact PointerProofs.ptrEval_of_ptrGet doc path v h
 
 /-- the empty fragment is the whole document -/
 theorem empty_fragment (doc : Json) : resolveFragment doc [] = some doc := by
-  sorry
+  exact PointerProofs.empty_fragment doc
 
 /-- negative half, in the property's own terms: a pointer whose first unresolvable token is a
     missing key, an out-of-range or non-canonical index, or any token applied to a scalar or
@@ -31,26 +31,26 @@ theorem empty_fragment (doc : Json) : resolveFragment doc [] = some doc := by
 theorem negative (keep : Char → Bool) (doc : Json) (pre : List Str) (tok : Str) (post : List Str)
     (d : Json) (hpre : Spec.ptrEval doc pre = some d) (hbad : Spec.ptrStep d tok = none) :
     resolveFragment doc (Spec.fragmentOf keep (pre ++ tok :: post)) = none := by
-  sorry
+  rw [resolve_eq_spec]; exact PointerProofs.ptrEval_bad doc pre tok post d hpre hbad
 
 /-- what "addresses nothing" means at an array: the token is not the canonical decimal of an
     in-range index (so `-1`, `01`, `+1`, ` 1`, `1_0`, `1.0`, `-`, non-ASCII digits all fail) -/
 theorem array_token_spec (xs : List Json) (tok : Str) (v : Json) :
     Spec.ptrStep (.arr xs) tok = some v ↔ ∃ n, n < xs.length ∧ tok = Spec.decimal n ∧ xs[n]? = some v := by
-  sorry
+  exact PointerProofs.array_token_spec xs tok v
 
 /-- scalars and strings are never indexed -/
 theorem scalar_token_spec (doc : Json) (tok : Str) (h : doc.isObj = false) (h' : doc.isArr = false) :
     Spec.ptrStep doc tok = none := by
-  sorry
+  exact PointerProofs.scalar_token_spec doc tok h h'
 
 /-- RFC 6901 unescaping inverts escaping (the order of the two replacements matters) -/
 theorem unescape_escape (k : Str) : unescapeToken (Spec.escapeToken k) = k := by
-  sorry
+  exact PointerProofs.unescape_escape k
 
 /-- percent-decoding inverts percent-encoding, for every encoder -/
 theorem unquote_pctEncode (keep : Char → Bool) (s : Str) : unquote (Spec.pctEncode keep s) = s := by
-  sorry
+  exact PointerProofs.unquote_pctEncode keep s
 
 /-! tests (not the claim) -/
 example : resolveFragment (.obj [("".toList, .num (.int 5))]) "/".toList = some (.num (.int 5)) := by decide +kernel
